@@ -429,13 +429,19 @@ func TestUnsupported(t *testing.T) {
 	db := newDB(t, `create table m (a varchar, b numeric, j jsonb)`)
 	mustQuery(t, db, "t", `insert into m values ('x', 1, '{}')`)
 	for _, sql := range []string{
-		"with x as (select 1) select * from x",
-		"with recursive x as (select 1) select * from x",
-		"select * from m, lateral (select 1) y",
-		"select * from m join jsonb_array_elements(m.j) e on true",
-		"select distinct on (a) a from m",
 		"select distinct a from m",
-		"select a, sum(b) from m group by a",
+		"select a, sum(b) from m group by a having sum(b) > 1",
+		"select a from m group by 1",
+		"select a as k from m group by k",
+		"with x as materialized (select 1) select * from x",
+		"with x as (insert into m values ('y', 2, '{}') returning a) select * from x",
+		"with recursive x as (select 1 union select 2 from x) select * from x",
+		"select 1 union select 2",
+		"select a from m union all select a from m order by 1",
+		"select * from m where j @@ '$.a ? (@ > 1)'",
+		"select * from m where j @@ '$[0] == 1'",
+		"select * from m right join m m2 on true",
+		"select distinct on (a) a, b from (select * from m union all select 'x', 2, '{}') u",
 		"select * from m where j @@ '$.a == 1'",
 		"select '$.a'::jsonpath",
 		"select * from m where a like 'x%'",
@@ -454,7 +460,7 @@ func TestUnsupported(t *testing.T) {
 		}
 	}
 	// a function whose body is outside the subset loads fine and fails only when called
-	mustQuery(t, db, "t", `create function later() returns setof varchar language sql as $$ with t as (select 1) select a from m $$`)
+	mustQuery(t, db, "t", `create function later() returns setof varchar language sql as $$ select distinct a from m $$`)
 	if _, err := db.Query("t", "select * from later()"); !IsUnsupported(err) {
 		t.Errorf("calling an unsupported body: %v", err)
 	}
@@ -654,8 +660,9 @@ func TestEndToEnd(t *testing.T) {
 	expect(t, "accounts_metadata", tableDump(db, "accounts_metadata", "accounts_seq", "revision", "date", "metadata"),
 		`1 | 1 | 2023-01-01T10:00:00.000000 | {}`+"\n"+`2 | 1 | 2023-01-01T10:00:00.000000 | {"k": "v"}`+"\n"+
 			`5 | 1 | 2023-01-01T10:00:01.000000 | {}`+"\n"+`5 | 2 | 2023-01-01T10:00:02.500000 | {"role": "x"}`)
-	// The second transaction is back-dated: no earlier move exists for "a", so SELECT INTO finds no row, the effective
-	// volumes variable becomes NULL and (NULL, NULL) is stored; the later-dated move of "a" is then shifted by the UPDATE.
+	// The second transaction is back-dated: no move of "a" exists at or before its date, so SELECT INTO finds no row; the
+	// schema (since its fix) restarts the effective volumes from zero, and the later-dated move of "a" is shifted by
+	// the UPDATE. TestSelectIntoNoRow covers the NULL behaviour of SELECT INTO itself.
 	expect(t, "moves", tableDump(db, "moves", "seq", "transactions_seq", "accounts_seq", "account_address", "amount", "is_source", "effective_date", "post_commit_volumes", "post_commit_effective_volumes"),
 		`1 | 1 | 1 | world | 5 | true | 2023-01-03T00:00:00.000000 | volumes(0,5) | volumes(0,5)`+"\n"+
 			`2 | 1 | 2 | a | 5 | false | 2023-01-03T00:00:00.000000 | volumes(5,0) | volumes(5,3)`+"\n"+
